@@ -127,7 +127,7 @@ func readSexp(s string) (string, int) {
 }
 
 func writeEvidence(s *Session, verif, prop, tier string, seed int, cfg PropConfig, vcs []*FnVC, results []*OblResult, funcs, trusted []string,
-	byBackend map[string]int, solverTime, wall float64, violations, total, discharged int, kf *KnownFindings) {
+	byBackend map[string]int, solverTime, wall float64, violations, total, discharged int, kf *KnownFindings, unreachable []string) {
 	externs := map[string]bool{}
 	assumes := map[string]bool{}
 	var imprecise []string
@@ -169,7 +169,9 @@ func writeEvidence(s *Session, verif, prop, tier string, seed int, cfg PropConfi
 	covers := map[string]string{}
 	for _, r := range results {
 		if r.Cover {
-			covers[r.Func] = r.Verdict
+			if !r.Info2 {
+				covers[r.Func] = r.Verdict
+			}
 			continue
 		}
 		if r.Trivial {
@@ -225,6 +227,8 @@ func writeEvidence(s *Session, verif, prop, tier string, seed int, cfg PropConfi
 			"solver_time_s":            round3(solverTime),
 			"obligation_list":          obl,
 			"vacuity_covers":           covers,
+			"axioms_consistent_check":  axiomsVerdict,
+			"returns_unreachable_under_contract": unreachable,
 			"out_of_subset":            outOfSub,
 			"bounded":                  cfg.Bounded,
 			"known_findings":           known,
